@@ -15,6 +15,7 @@
 //!               after the last NUL-terminated request, i.e. an unterminated last message
 //!     dec     = what serde_json says about each frame (as in the wire suite)
 //!   (raceprobe <n>)   n sessions of one call whose service replies and immediately closes
+//!   (closeprobe <n>)  n runs of `REQUEST | varlink -A <service> bridge` (stdin closed right after the request)
 //!
 //! Observation:
 //!   (obs (bridged (out <reply>*) b<raw> <end>) (exit <code|sig<n>|timeout>)
@@ -26,7 +27,12 @@
 //!     bytes buffered behind an upgrading request, which is C02's business)
 //!     end = open (the bridge answered the sentinel call that the harness appends) | closed | timeout
 //!     `k` = index of the service, the resolver has index = number of services
-//!   (raceprobe lost|kept)
+//!     closeearly in the modes connect / activate / bridgecmd: the pump forwards the pending input and then
+//!     shuts the service connection down in both directions, so how many replies still get through is a
+//!     race; the observation is `(bridged (prefix <t|f>) <end>)`: are the replies that came a prefix of the
+//!     direct ones?
+//!   (raceprobe lost|kept)          lost: in at least one session the reply did not arrive
+//!   (closeprobe cut|complete)      cut: in at least one run the reply did not arrive
 //!
 //! The direct runs use one connection per service carrying the requests that a client would send
 //! to that service itself: the interface is looked up in the table (the i-th lookup of the session
@@ -805,6 +811,7 @@ fn run_proxy(ctx: &Ctx, l: &[Sx]) -> Sx {
     // the direct runs
     let nsvc = c.worlds.len();
     let mut direct = Vec::new();
+    let mut direct_replies: Vec<Sx> = Vec::new(); // of the single target of the pump modes
     for t in 0..=nsvc {
         let target = if t == nsvc { Target::Resolver } else { Target::Svc(t) };
         let mine: Vec<Vec<u8>> = routes.iter().filter(|r| r.0 == target).map(|r| r.1.clone()).collect();
@@ -815,6 +822,9 @@ fn run_proxy(ctx: &Ctx, l: &[Sx]) -> Sx {
         // the payload belongs to the service the last (upgrading) request goes to
         let pl = if routes.last().map(|r| r.0 == target).unwrap_or(false) { c.payload.clone() } else { None };
         let r = direct_run(&address, &mine, &pl, t == nsvc);
+        if let Some(d) = &r {
+            direct_replies.extend(wire::split_replies(&d.out));
+        }
         direct.push(match r {
             Some(d) => sx::list(vec![sx::nat(t), sx::tagged("out", wire::split_replies(&d.out)), sx::bs(&d.raw), sx::atom(d.end)]),
             None => sx::list(vec![sx::nat(t), sx::tagged("fail", vec![]), sx::bs(&[]), sx::atom("closed")]),
@@ -846,12 +856,20 @@ fn run_proxy(ctx: &Ctx, l: &[Sx]) -> Sx {
     drop(resolver);
     let _ = std::fs::remove_dir_all(&sub.dir);
     let panicked = matches!(&exit, Sx::Atom(a) if a == "101");
+    let prefix_form = direct_mode && c.client == "closeearly";
+    let prefix_ok = {
+        let got: Vec<String> = wire::split_replies(&bridged_out).iter().map(|r| r.render()).collect();
+        let want: Vec<String> = direct_replies.iter().map(|r| r.render()).collect();
+        bridged_raw.is_empty() && got.len() <= want.len() && got[..] == want[..got.len()]
+    };
     sx::tagged(
         "obs",
         vec![
             if panicked {
                 // the main thread died while the copy threads were running: what got through is a race
                 sx::tagged("bridged", vec![sx::atom("panicked")])
+            } else if prefix_form {
+                sx::tagged("bridged", vec![sx::tagged("prefix", vec![sx::boolean(prefix_ok)]), sx::atom(res.end)])
             } else {
                 sx::tagged("bridged", vec![sx::tagged("out", wire::split_replies(&bridged_out)), sx::bs(&bridged_raw), sx::atom(res.end)])
             },
@@ -903,6 +921,51 @@ fn run_raceprobe(ctx: &Ctx, l: &[Sx]) -> Sx {
     drop(r);
     let _ = std::fs::remove_dir_all(&sub.dir);
     sx::tagged("raceprobe", vec![sx::atom(if lost > 0 { "lost" } else { "kept" })])
+}
+
+fn run_closeprobe(ctx: &Ctx, l: &[Sx]) -> Sx {
+    let n = l[1].as_usize().unwrap();
+    let sub = Subst::new(ctx, "q");
+    let w = WorldSpec { svc: wire::svc_cfg("close", &[("org.example.a", "a")], false).sx, resolver: None, up: false };
+    std::fs::write(format!("{}/spec", sub.dir), w.to_sx().render() + "\n").unwrap();
+    let mut cut = 0;
+    for i in 0..n {
+        let dump = format!("{}/dump{}.json", sub.dir, i);
+        let mut child = Command::new(varlink_cli_path())
+            .arg("-A")
+            .arg(format!("{} serve {}/spec $VARLINK_ADDRESS --idle 2 --dump {}", helper_path(), sub.dir, dump))
+            .arg("bridge")
+            .stdin(Stdio::piped())
+            .stdout(Stdio::piped())
+            .stderr(Stdio::null())
+            .spawn()
+            .expect("spawn varlink");
+        let mut stdin = child.stdin.take();
+        let coll = Collector::start(child.stdout.take().unwrap());
+        let mut guard = ChildGuard::new(child);
+        let mut f = serde_json::to_vec(&json!({"method":"org.example.a.Run","parameters":{"script":[{"op":"reply","p":{"i":i}}],"token":"probe"}})).unwrap();
+        f.push(0);
+        if let Some(s) = stdin.as_mut() {
+            let _ = s.write_all(&f);
+            let _ = s.flush();
+        }
+        drop(stdin); // right after the request
+        let _ = guard.wait_timeout(EXIT_WAIT);
+        let t0 = Instant::now();
+        while !coll.is_eof() && t0.elapsed() < Duration::from_millis(500) {
+            std::thread::sleep(Duration::from_millis(1));
+        }
+        if !coll.snapshot().contains(&0) {
+            cut += 1;
+        }
+        if let Some(d) = read_dump(&dump, Duration::from_millis(50)) {
+            if let Some(p) = d["pid"].as_i64() {
+                guard.extra_pids.push(p as i32);
+            }
+        }
+    }
+    let _ = std::fs::remove_dir_all(&sub.dir);
+    sx::tagged("closeprobe", vec![sx::atom(if cut > 0 { "cut" } else { "complete" })])
 }
 
 // ---------------------------------------------------------------------------
@@ -979,7 +1042,11 @@ fn mk_case(mode: Sx, gw: &GenWorld, client: &str, frames: &[Vec<u8>], payload: O
 fn gen_good_request(rng: &mut Rng, gw: &GenWorld, tok: &str, tags: &mut Vec<String>) -> Vec<u8> {
     let p = |i: usize| json!({"token": tok, "i": i});
     let mut v: Value;
-    match rng.range(1, 11) {
+    match rng.below(12) {
+        0 => {
+            tags.push("req:getinfo".into());
+            v = json!({"method":"org.varlink.service.GetInfo"});
+        }
         1 => {
             tags.push("req:getdesc".into());
             let names: Vec<String> = gw.scripts.iter().map(|s| s.0.clone()).chain(std::iter::once("org.example.vtest".to_string())).collect();
@@ -1052,12 +1119,7 @@ fn gen_good_request(rng: &mut Rng, gw: &GenWorld, tok: &str, tags: &mut Vec<Stri
 
 /// requests outside the hypotheses (one class each)
 fn gen_hard_request(rng: &mut Rng, gw: &GenWorld, tok: &str, tags: &mut Vec<String>) -> Vec<u8> {
-    let v = match rng.below(9) {
-        8 => {
-            // with `--resolver <other address>` the bridge still asks the compiled-in address
-            tags.push("hard:getinfo".into());
-            json!({"method":"org.varlink.service.GetInfo"})
-        }
+    let v = match rng.below(8) {
         0 => {
             tags.push("hard:unknown-interface".into());
             json!({"method": format!("no.such{}.M", tok), "parameters": {"token": tok}})
@@ -1120,7 +1182,7 @@ impl Suite for ProxySuite {
                 }
             }
         }
-        let n = if ctx.thorough { 1500 } else { 260 };
+        let n = if ctx.thorough { 1500 } else { 200 };
         let mut tok = 0usize;
         for _ in 0..n {
             let gw = gen_world(&mut rng);
@@ -1144,20 +1206,22 @@ impl Suite for ProxySuite {
                 3..=5 => rng.range(2, 5),
                 _ => rng.range(6, if ctx.thorough { 30 } else { 12 }),
             };
-            // the inner bridge of `bridge2` exits early on a hard request and its last replies race
-            // with the hang-up in the outer pump: only good requests there
-            let hard_at = if mtag != "bridge2" && rng.chance(1, 4) && len > 0 { rng.below(len) } else { usize::MAX };
+            if mtag == "bridge2" && client == "closeearly" {
+                // what the inner bridge still gets to answer before the outer pump shuts its socket down is a race
+                client = "pipelined";
+            }
+            let hard_at = if rng.chance(1, 4) && len > 0 { rng.below(len) } else { usize::MAX };
             let mut frames = Vec::new();
             for i in 0..len {
                 tok += 1;
                 let t = format!("k{}z", tok);
                 if i == hard_at {
                     let f = gen_hard_request(&mut rng, &gw, &t, &mut tags);
-                    // behind a byte pump a service that closes the connection must not have replies in
-                    // flight (the pump drops data that arrives together with the hang-up)
-                    let closing = tags.iter().any(|t| t == "hard:abort-silent" || t == "hard:abort-delayed" || t == "hard:getdesc-illtyped");
-                    if closing && (mtag == "activate" || mtag == "bridgecmd") && client == "pipelined" {
-                        client = "stepwise";
+                    // a stepwise client would wait for the reply to a call that the service drops silently
+                    // (through the resolver-mode bridge the session goes on, so no EOF ends the wait)
+                    let silent = tags.iter().any(|t| t == "hard:abort-silent");
+                    if silent && (mtag == "resolver" || mtag == "bridge2") && client == "stepwise" {
+                        client = "pipelined";
                     }
                     frames.push(f);
                 } else {
@@ -1167,8 +1231,10 @@ impl Suite for ProxySuite {
             tags.push(format!("client:{}", client));
             // upgraded sessions: single-reply requests first, then the upgrade, then a payload
             let mut payload = None;
+            // the upgrade echo interface lives in service 0
             let up_possible = match &mode {
                 Sx::List(l) if mtag == "activate" || mtag == "bridgecmd" => l[1].as_usize() == Some(0),
+                Sx::List(l) if mtag == "connect" => l[1].as_str().map(|a| a.contains("s0.sock")).unwrap_or(false),
                 _ => true,
             };
             if hard_at == usize::MAX && client != "closeearly" && up_possible && rng.chance(1, 5) {
@@ -1196,6 +1262,7 @@ impl Suite for ProxySuite {
         match l[0].as_atom().unwrap_or("") {
             "proxy" => run_proxy(ctx, l),
             "raceprobe" => run_raceprobe(ctx, l),
+            "closeprobe" => run_closeprobe(ctx, l),
             other => panic!("case kind {}", other),
         }
     }
